@@ -6,6 +6,7 @@ import (
 	"math/rand"
 	"os"
 
+	"verifharness/comb"
 	"verifharness/rec"
 	"verifharness/subj"
 )
@@ -40,7 +41,32 @@ func cmdDrive(args []string) {
 	emit("REPORT", map[string]any{"engine": "drive", "subject": name, "runs": *runs, "events": r.N})
 }
 
+// cmdScen records combinator sessions (C07-C09) for validation by spec/seq/Session.tla.
 func cmdScen(args []string) {
-	fmt.Println("scen: not built yet")
-	os.Exit(2)
+	fs := flag.NewFlagSet("scen", flag.ExitOnError)
+	out := fs.String("out", "sessions.ndjson", "output")
+	mode := fs.String("mode", "faultfree", "faultfree | faults | random")
+	maxLen := fs.Int("maxlen", 3, "maximal input length")
+	keep := fs.Float64("keep", 1, "sampling probability of the fault product space")
+	n := fs.Int("n", 1000, "number of random scenarios")
+	fs.Parse(args)
+	w, err := comb.NewWriter(*out)
+	if err != nil {
+		fmt.Println(err)
+		os.Exit(2)
+	}
+	rng := rand.New(rand.NewSource(seed()))
+	switch *mode {
+	case "faultfree":
+		comb.GenFaultFree(w, *maxLen)
+	case "faults":
+		comb.GenFaults(w, *maxLen, rng, *keep)
+	case "random":
+		comb.GenRandom(w, rng, *n)
+	}
+	if err := w.Close(); err != nil {
+		fmt.Println(err)
+		os.Exit(2)
+	}
+	emit("REPORT", map[string]any{"engine": "scen", "mode": *mode, "events": w.N, "by_comb": w.ByComb})
 }
